@@ -40,33 +40,83 @@ def make_script(ctx):
 
 
 def reference(inp, tmp):
-    """in-process emit_c_code(): to a StringIO and to a path"""
+    """in-process emit_c_code(): to a StringIO and to a path -> ("ok", bytes, bytes) or ("err", exception name)"""
     import cffi
     out = []
     for sink in ("filelike", "path"):
-        ffi = cffi.FFI()
-        with warnings.catch_warnings():
-            warnings.simplefilter("ignore")
-            ffi.cdef(inp["cdef"])
-        ffi.set_source(inp["modname"], inp["prelude"])
-        with contextlib.redirect_stdout(io.StringIO()):
-            if sink == "filelike":
-                f = io.StringIO()
-                ffi.emit_c_code(f)
-                data = f.getvalue().encode("utf-8")
-            else:
-                p = os.path.join(tmp, "ref_%s.c" % inp["id"])
-                ffi.emit_c_code(p)
-                with open(p, "rb") as fh:
-                    data = fh.read()
+        try:
+            ffi = cffi.FFI()
+            with warnings.catch_warnings():
+                warnings.simplefilter("ignore")
+                ffi.cdef(inp["cdef"])
+            ffi.set_source(inp["modname"], inp["prelude"])
+            with contextlib.redirect_stdout(io.StringIO()):
+                if sink == "filelike":
+                    f = io.StringIO()
+                    ffi.emit_c_code(f)
+                    data = f.getvalue().encode("utf-8")
+                else:
+                    p = os.path.join(tmp, "ref_%s.c" % inp["id"])
+                    ffi.emit_c_code(p)
+                    with open(p, "rb") as fh:
+                        data = fh.read()
+        except Exception as e:          # the failure side of the equation
+            return ("err", type(e).__name__)
         out.append(data)
-    return out
+    return ("ok", out[0], out[1])
+
+
+def translate_newlines(t):
+    """what reading a file in text mode (universal newlines) makes of a text"""
+    return t.replace("\r\n", "\n").replace("\r", "\n")
+
+
+CP = {"FEFF": "\ufeff", "2028": "\u2028", "0C": "\x0c", "1F": "\x1f", "7F": "\x7f", "85": "\x85", "CR": "\r"}
+
+
+def decorate(base, dec, k):
+    """apply one decoration of GenSrc!Decorations to a base input"""
+    inp = dict(base, id="d%d" % k, dec=dec, script_prefix="")
+    where, what = dec["where"], dec["what"]
+    if what in CP and "-" in where:
+        field, pos = where.split("-")
+        if field == "script":
+            inp["script_prefix"] = CP[what]
+        else:
+            t = inp[field]
+            if pos == "start":
+                t = CP[what] + t
+            elif pos == "end":
+                t = t + CP[what]
+            elif pos == "mid":
+                i = t.find("\n") if "\n" in t else len(t) // 2
+                t = t[:i] + CP[what] + t[i:]
+            elif pos == "all":
+                t = t.replace("\n", "\r")
+            inp[field] = t
+    elif what == "CRLF":
+        field = where.split("-")[0]
+        inp[field] = inp[field].replace("\n", "\r\n")
+    elif what == "empty":
+        for field in (("prelude", "cdef") if where == "both" else (where,)):
+            inp[field] = ""
+    elif what == "syntax-error":
+        inp["cdef"] = inp["cdef"] + "int broken(int;\n"
+    elif what == "unemittable":
+        inp["cdef"] = inp["cdef"] + "typedef char zarr_t[3];\nzarr_t returns_array(int);\n"
+    elif what == "slash":
+        inp["modname"] = "pkg/" + inp["modname"].split(".")[-1]
+    elif what == "dotted":
+        inp["modname"] = "deep.er." + inp["modname"]
+    else:
+        raise core.MachineryError("unknown decoration %r" % (dec,))
+    return inp
 
 
 def py_script(inp, cfg):
     """the build script exec-python runs"""
     var = "ffibuilder" if cfg["ffivar"] == "default" else "my_ffi_%s" % inp["id"]
-    lines = ["# -*- coding: utf-8 -*-", "from cffi import FFI", ""]
+    lines = ["from cffi import FFI", ""]
     if cfg["binding"] == "object":
         lines += ["%s = FFI()" % var, "%s.cdef(%r)" % (var, inp["cdef"]),
                   "%s.set_source(%r, %r)" % (var, inp["modname"], inp["prelude"]), "",
@@ -74,7 +124,7 @@ def py_script(inp, cfg):
     else:
         lines += ["def %s():" % var, "    b = FFI()", "    b.cdef(%r)" % inp["cdef"],
                   "    b.set_source(%r, %r)" % (inp["modname"], inp["prelude"]), "    return b"]
-    return var, "\n".join(lines) + "\n"
+    return var, inp.get("script_prefix", "") + "\n".join(lines) + "\n"
 
 
 def run_cli(ctx, script, inp, ci, cfg):
@@ -104,15 +154,17 @@ def run_cli(ctx, script, inp, ci, cfg):
         try:
             with open(outp, "rb") as f:
                 data = f.read()
+            wrote = True
         except FileNotFoundError:
-            data = b"<no output file>"
+            data, wrote = b"", False
         extra = r.stdout
     else:
         data, extra = r.stdout, b""
+        wrote = len(data) > 0
     # classify one specific way of differing: an extra first line "generating <... object at 0x...>"
     m = re.match(rb"generating <[^>\n]*>\n", data)
     stripped = hashlib.sha256(data[m.end():]).hexdigest() if m else None
-    return {"status": r.returncode, "digest": hashlib.sha256(data).hexdigest(), "len": len(data),
+    return {"status": r.returncode, "digest": hashlib.sha256(data).hexdigest(), "len": len(data), "wrote": wrote,
             "digest_without_generating_line": stripped, "head": data[:80].decode("utf-8", "replace"),
             "stderr": r.stderr[-600:].decode("utf-8", "replace"), "argv": argv, "noise": len(extra)}
 
@@ -147,98 +199,161 @@ def validate(ctx, recs):
     return [(int(k) - 1, core.unq(w), int(i) - 1) for k, w, i in core.tla_tuples(r.out, "VERDICT")]
 
 
+QUICK_CFGS = [("read-sources", "script", "file", "object", "default"), ("read-sources", "module", "stdout", "object", "default"),
+              ("exec-python", "module", "file", "object", "default")]
+
+
+def classify(inp, cfg, what, o, refs_tr):
+    """key of a violation; two specific, understood ways of differing get their own key"""
+    key = "gensrc:%s:%s:%s:%s" % (what, cfg["sub"], cfg["inv"], cfg["out"])
+    dec = inp.get("dec")
+    if dec:
+        key += ":%s:%s" % (dec["where"], dec["what"])
+    if what == "bytes" and cfg["out"] == "stdout" and o.get("digest_without_generating_line") == inp["_ref"][1]:
+        return "gensrc:stdout-starts-with-generating-line:%s:%s" % (cfg["sub"], cfg["inv"])
+    has_cr = "\r" in inp["cdef"] or "\r" in inp["prelude"]
+    if has_cr and cfg["sub"] == "read-sources" and refs_tr is not None:
+        # read-sources reads its files in text mode: is the outcome exactly that of the newline-translated texts?
+        same = (refs_tr[0] == "ok" and o["status"] == 0 and o["digest"] == hashlib.sha256(refs_tr[1]).hexdigest()) or \
+               (refs_tr[0] == "err" and o["status"] != 0 and not o["wrote"])
+        if same:
+            return "gensrc:carriage-returns-translated:read-sources:%s:%s" % (
+                "cdef" if "\r" in inp["cdef"] else "prelude", "rejected-by-cdef" if inp["_ref"][0] == "err" else "bytes")
+    if dec and dec["where"] == "script-start" and dec["what"] == "FEFF" and what == "status" and "U+FEFF" in o["stderr"]:
+        return "gensrc:script-with-utf8-bom-rejected:exec-python"
+    return key
+
+
 def run(ctx):
     quick = ctx.quick
     mpath = os.path.join(ctx.tmp, "gensrc_matrix.json")
     r = core.tlc("GenSrc", "MC_GenSrc", workers=1, env=light({"GENSRC_OUT": mpath}))
     ctx.add_tlc("GenSrc(configuration matrix)", r)
     with open(mpath) as f:
-        configs = json.load(f)
-    if len(configs) != r.distinct or len(configs) < 20:
-        raise core.MachineryError("configuration matrix incomplete: %d" % len(configs))
+        matrix = json.load(f)
+    configs, decorations = matrix["configs"], matrix["decorations"]
+    if len(configs) != r.distinct or len(configs) < 20 or len(decorations) < 40:
+        raise core.MachineryError("configuration matrix incomplete: %d, %d" % (len(configs), len(decorations)))
+    decorations.sort(key=lambda d: (d["where"], d["what"]))
     script = make_script(ctx)
-    inputs = make_inputs(ctx, 4 if quick else 60)
-    refs = {}
+    inputs = make_inputs(ctx, 3 if quick else 40)
+    # decorated inputs: every decoration on a small base input
+    rng = ctx.rng
+    nbase = 1 if quick else 2
+    for b in range(nbase):
+        base = {"cdef": gen_cdef.gen(rng, 3, "api") + "int plain_%d(int);\n" % b, "prelude": "#include <stddef.h>\n/* prelude %d */\nstatic int h%d;\n" % (b, b),
+                "modname": rng.choice(["_dm%d", "pkg._dm%d"]) % b}
+        for k, dec in enumerate(decorations):
+            inputs.append(decorate(base, dec, b * 100 + k))
+    quick_cfgs = [c for c in configs if (c["sub"], c["inv"], c["out"], c["binding"], c["ffivar"]) in QUICK_CFGS]
+    jobs = []
     for inp in inputs:
-        a, b = reference(inp, ctx.tmp)
-        refs[inp["id"]] = (hashlib.sha256(a).hexdigest(), hashlib.sha256(b).hexdigest(), len(a))
-    jobs = [(inp, ci, cfg) for inp in inputs for ci, cfg in enumerate(configs)]
+        ref = reference(inp, ctx.tmp)
+        inp["_ref"] = (ref[0], hashlib.sha256(ref[1]).hexdigest() if ref[0] == "ok" else ref[1],
+                       hashlib.sha256(ref[2]).hexdigest() if ref[0] == "ok" else "", len(ref[1]) if ref[0] == "ok" else 0)
+        cfgs = configs if (not quick or "dec" not in inp) else quick_cfgs
+        for ci, cfg in enumerate(cfgs):
+            if inp.get("script_prefix") and cfg["sub"] != "exec-python":
+                continue                       # a decoration of the build script does not apply to read-sources
+            jobs.append((inp, ci, cfg))
     with ThreadPoolExecutor(8) as pool:
         outs = list(pool.map(lambda j: run_cli(ctx, script, *j), jobs))
-    recs = []
     byid = {}
     for (inp, ci, cfg), o in zip(jobs, outs):
         byid.setdefault(inp["id"], []).append((cfg, o))
         ctx.case((inp["id"], ci))
+    recs = []
     for inp in inputs:
-        recs.append({"id": inp["id"], "ref": refs[inp["id"]][0], "ref2": refs[inp["id"]][1],
-                     "obs": [{"status": o["status"], "digest": o["digest"]} for _c, o in byid[inp["id"]]]})
+        recs.append({"id": inp["id"], "ok": inp["_ref"][0] == "ok", "ref": inp["_ref"][1], "ref2": inp["_ref"][2],
+                     "obs": [{"status": o["status"], "digest": o["digest"], "wrote": o["wrote"]} for _c, o in byid[inp["id"]]]})
     bad = validate(ctx, recs)
     inp_by = {inp["id"]: inp for inp in inputs}
     for k, what, i in bad:
         inp = inp_by[recs[k]["id"]]
+        pub = {x: inp[x] for x in ("id", "cdef", "prelude", "modname")}
+        pub["script_prefix"] = inp.get("script_prefix", "")
+        pub["dec"] = inp.get("dec")
         if what == "reference":
             ctx.violation("gensrc:reference", "emit_c_code() to a path and to a file-like object differ for the same input",
-                          {"input": inp, "cfg": None})
+                          {"input": pub, "cfg": None})
             continue
         cfg, o = byid[inp["id"]][i]
-        key = "gensrc:%s:%s:%s:%s" % (what, cfg["sub"], cfg["inv"], cfg["out"])
-        if what == "bytes" and cfg["out"] == "stdout" and o["digest_without_generating_line"] == refs[inp["id"]][0]:
-            # the only difference is the progress line of recompiler._make_c_or_py_source in front of the source
-            key = "gensrc:stdout-starts-with-generating-line:%s:%s" % (cfg["sub"], cfg["inv"])
-        msg = ("exit status %d, stderr: %s" % (o["status"], o["stderr"][-300:]) if what == "status" else
-               "the command line wrote %d bytes that differ from the %d bytes of emit_c_code(); they start with %r"
-               % (o["len"], refs[inp["id"]][2], o["head"]))
-        ctx.violation(key, "%s (%s)" % (msg, " ".join(os.path.basename(a) for a in o["argv"][:4])), {"input": inp, "cfg": cfg})
+        refs_tr = None
+        if "\r" in inp["cdef"] or "\r" in inp["prelude"]:
+            refs_tr = reference(dict(inp, id=inp["id"] + "t", cdef=translate_newlines(inp["cdef"]),
+                                     prelude=translate_newlines(inp["prelude"])), ctx.tmp)
+        key = classify(inp, cfg, what, o, refs_tr)
+        if what == "status":
+            msg = "exit status %d although emit_c_code() succeeds; stderr: %s" % (o["status"], o["stderr"][-200:])
+        elif what == "bytes":
+            msg = ("the command line wrote %d bytes that differ from the %d bytes of emit_c_code(); they start with %r"
+                   % (o["len"], inp["_ref"][3], o["head"]))
+        elif what == "accepted-what-the-reference-rejects":
+            msg = "the command line exits 0 and writes %d bytes although in-process cdef/set_source/emit_c_code raises %s" % (
+                o["len"], inp["_ref"][1])
+        else:
+            msg = "exit status %d but output was written (%d bytes)" % (o["status"], o["len"])
+        ctx.violation(key, "%s (%s; decoration %s)" % (msg, " ".join(os.path.basename(a) for a in o["argv"][:4]),
+                                                       inp.get("dec")), {"input": pub, "cfg": cfg})
     ctx.validated(sum(len(x["obs"]) for x in recs))
-    noise = [o for o in outs if o["noise"]]
-    if noise:
-        ctx.cov["stdout_noise_with_file_output"] = len(noise)
+    ctx.cov["reference_rejects"] = sum(1 for x in recs if not x["ok"])
+    ctx.cov["decorations"] = len(decorations)
     ctx.sample({"kind": "cli run", "argv": [os.path.basename(a) for a in outs[0]["argv"]], "status": outs[0]["status"],
-                "digest": outs[0]["digest"], "reference": refs[inputs[0]["id"]][0]})
+                "digest": outs[0]["digest"], "reference": inputs[0]["_ref"][1]})
     ctx.sample({"kind": "input", "modname": inputs[0]["modname"], "cdef": inputs[0]["cdef"][:400],
                 "prelude": inputs[0]["prelude"][:300]})
+    rej = [x for x in inputs if x["_ref"][0] == "err"]
+    if rej:
+        ctx.sample({"kind": "input the reference rejects", "decoration": rej[0].get("dec"), "exception": rej[0]["_ref"][1],
+                    "cli": [(c["sub"], o["status"], o["wrote"]) for c, o in byid[rej[0]["id"]]][:4]})
     ctx.cov["configurations"] = len(configs)
     ctx.cov["exhaustive"] = True
     ctx.cov["rule"] = "distinct = (input, configuration) pairs, each one CLI sub-process; none trivial"
     ctx.assumptions += ["UTF-8 locale (the sandbox default): emit_c_code(path) uses the locale's encoding, the command "
                         "line always UTF-8; under a non-UTF-8 locale non-ASCII preludes are not comparable",
-                        "inputs contain no carriage returns (read-sources reads its files in text mode, which "
-                        "translates them)",
+                        "for exec-python the reference is the FFI built in-process from the same (cdef, prelude, name) the "
+                        "generated build script passes",
                         "the console script is generated from the working tree's [project.scripts] entry, as pip would"]
 
 
 def selftest(ctx):
-    rec = {"id": "x", "ref": "aa", "ref2": "aa", "obs": [{"status": 0, "digest": "aa"}, {"status": 0, "digest": "aa"}]}
+    rec = {"id": "x", "ok": True, "ref": "aa", "ref2": "aa", "obs": [{"status": 0, "digest": "aa", "wrote": True}] * 2}
     b1 = json.loads(json.dumps(rec)); b1["obs"][1]["digest"] = "ab"
     b2 = json.loads(json.dumps(rec)); b2["obs"][0]["status"] = 2
-    bad = validate(ctx, [rec, b1, b2])
+    b3 = {"id": "y", "ok": False, "ref": "CDefError", "ref2": "", "obs": [{"status": 0, "digest": "aa", "wrote": True},
+                                                                         {"status": 1, "digest": "", "wrote": False}]}
+    bad = validate(ctx, [rec, b1, b2, b3])
     # and a real run whose prelude is changed behind the reference's back
     inp = {"id": "s", "cdef": "int f(int);", "prelude": "/* a */\n", "modname": "m"}
-    a, _ = reference(inp, ctx.tmp)
+    ref = reference(inp, ctx.tmp)
     script = make_script(ctx)
     cfg = {"sub": "read-sources", "inv": "script", "out": "file", "binding": "object", "ffivar": "default"}
     o1 = run_cli(ctx, script, inp, 0, cfg)
     o2 = run_cli(ctx, script, dict(inp, prelude="/* b */\n"), 1, cfg)
-    ref = hashlib.sha256(a).hexdigest()
+    d = hashlib.sha256(ref[1]).hexdigest()
     ctx.cov["states"] = 1
-    return sorted((k, w) for k, w, _ in bad) == [(1, "bytes"), (2, "status")] and o1["digest"] == ref and o2["digest"] != ref
+    return (sorted((k, w) for k, w, _ in bad) == [(1, "bytes"), (2, "status"), (3, "accepted-what-the-reference-rejects")]
+            and o1["digest"] == d and o2["digest"] != d)
 
 
 def replay(ctx, obj):
     rp = obj["replay"]
     ctx.cov["states"] = 1
     inp, cfg = rp["input"], rp["cfg"]
-    a, b = reference(inp, ctx.tmp)
+    ref = reference(inp, ctx.tmp)
     if cfg is None:
-        same = a == b
+        same = ref[0] == "ok" and ref[1] == ref[2]
         print("path and file-like references equal:", same)
         if not same:
             ctx.violation(obj["key"], obj["what"], rp)
         return
     o = run_cli(ctx, make_script(ctx), inp, 0, cfg)
-    ok = o["status"] == 0 and o["digest"] == hashlib.sha256(a).hexdigest()
-    print("re-executed %s: status %d, bytes %s" % (cfg, o["status"], "equal" if ok else "DIFFERENT"))
+    if ref[0] == "ok":
+        ok = o["status"] == 0 and o["digest"] == hashlib.sha256(ref[1]).hexdigest()
+    else:
+        ok = o["status"] != 0 and not o["wrote"]
+    print("re-executed %s: reference %s, CLI status %d, wrote %s -> %s" % (cfg, ref[0], o["status"], o["wrote"],
+                                                                            "consistent" if ok else "INCONSISTENT"))
     if not ok:
         ctx.violation(obj["key"], obj["what"], rp)
 
